@@ -62,6 +62,22 @@ def obligations(tier, seed):
         obs.append(Ob(id='C15.inverse.%s' % rep, prop='C15', group='C15.inverse', prelude=PRE, wrappers=[w, we, wa, wrt], inputs=[(ct, 'x')], body=body,
                       contract='forall x != 0: inverse_in/inverse_as(ns, kHz(x)) == trunc(10^6 / x) (K = 10^6 is the exact conversion constant); inverse(inverse(n)) == n for 1 <= n <= 1000; no UB:*',
                       functions_under_contract=('au::inverse_in', 'au::inverse_as')))
+    # ---- inverse with a floating input and an explicit integral target rep: trunc(K / x) with the division done in the common (floating) type
+    for (rep, tr) in (('f64', 'i32'), ('f32', 'i64')):
+        ct, ctt = G.ctype(rep), G.ctype(tr)
+        qh = 'au::make_quantity<au::Hertz>(x)'
+        w = Wrapper('w_invfi_%s_%s' % (rep, tr), ctt, [(ct, 'x')], 'return au::inverse_in<%s>(au::micro(au::seconds), %s);' % (ctt, qh))
+        wq = Wrapper('w_invff_%s' % rep, ct, [(ct, 'x')], 'return au::inverse_in<%s>(au::micro(au::seconds), %s);' % (ct, qh))
+        half = '0.5' if rep == 'f64' else '0.5f'
+        body = '''
+  ASSUME(n >= 1 && n <= 1000);
+  %s x = (%s)n + %s;     /* half-integers: exactly representable, and K/x is never within rounding distance of an integer unless it is one */
+  CHECK((i64)%s(x) == (i64)2000000 / (2 * (i64)n + 1), "explicit-integral-rep-is-trunc-K-over-x");
+''' % (ct, ct, half, w.name)
+        obs.append(Ob(id='C15.inverse-float-to-int.%s_%s' % (rep, tr), prop='C15', group='C15.inversef', prelude=PRE, wrappers=[w], inputs=[('uint16_t', 'n')], body=body, fp=True, budget=300, bounded=True,
+                      contract='for every half-integer x = n + 0.5, 1 <= n <= 1000 (as %s): inverse_in<%s>(us, hertz(x)) == trunc(10^6 / x) == floor(2*10^6 / (2n+1)) -- the division '
+                               'happens in the common floating type and the cast comes last (a restricted input family: the full floating domain makes two IEEE dividers that no back end equates)' % (ct, ctt),
+                      functions_under_contract=('au::inverse_in<TargetRep>',)))
     # ---- trig / cmath wrappers against libm stubs
     for (rep, sfx) in (('f64', ''), ('f32', 'f')):
         ct = G.ctype(rep); bits = 'vf_f64_bits' if rep == 'f64' else 'vf_f32_bits'
